@@ -29,4 +29,19 @@ func registerSpecs() {
 		Stub: append([]string{"application writers/readers (harness tasks)", "independent wire monitor (wiremon) decoding every packet with the session keys"}, sshStub...),
 		Assumptions: []string{"liveness is judged at quiescence after all link stalls are released and with every reader draining", "the wire monitor's packet decoder is an independent implementation of RFC 4253/4344/5647 and OpenSSH PROTOCOL documents"},
 	}
+	wireReal := []string{"ssh packet layer of the working tree (instrumented copy): transport, connectionState sequence counters, newPacketCipher/generateKeyMaterial, streamPacketCipher, gcmCipher, cbcCipher, chacha20Poly1305Cipher, MACs"}
+	specs["C25"] = &spec{
+		Harness: "wire", Level: "exploration", QuickRuns: 30000, ThoroughRuns: 600000, Chunk: 1500,
+		Rule: "one case = (cipher x MAC pair out of all 51 the package implements, KEX hash SHA-1/256/384/512, shared-secret length, direction, start sequence number incl. values just below 2^32, strict flag, 1-40 payload sizes from 1..300 / block-size neighbours / 32 KiB / 64 KiB / 100000 / maxPacket-40..maxPacket / over-long, fragmentation rate) with a writer task and a reader task under one seeded schedule; non-trivial = keys were installed in both transports; distinct = distinct hash of (schedule, events)",
+		Real: wireReal,
+		Stub: append([]string{"key agreement (K, H, session id supplied by the harness; that is C29's subject)", "independent wire monitor (wiremon)"}, sshStub[:2]...),
+		Assumptions: []string{"fault set for C25 is fragmentation, coalescing and scheduling only, so equality is exact", "the independent decoder implements RFC 4253/4344/5647, OpenSSH PROTOCOL (EtM) and PROTOCOL.chacha20poly1305"},
+	}
+	specs["C26"] = &spec{
+		Harness: "wire", Level: "fault_enumeration", QuickRuns: 20000, ThoroughRuns: 600000, Chunk: 1500, EnumQuick: true, EnumThorough: true,
+		Rule: "enumerated part: every single-bit flip of the first packet of a two-packet stream for each of the 51 cipher x MAC pairs (positions beyond the packet are trivial cases); sampled part: 1-5 packets, 1-3 faults from {bit flip, byte overwrite, truncation at any offset, packet drop / duplicate / swap, inserted bytes, inflated length field with the link kept open, fully random stream} for every pair and for the none cipher; non-trivial = the delivered stream differs from the written one; distinct = distinct hash of (schedule, events)",
+		Real: wireReal,
+		Stub: append([]string{"attacker rewriting the ciphertext between writer and reader", "key agreement supplied by the harness"}, sshStub[:2]...),
+		Assumptions: []string{"for authenticated modes the first packet position whose bytes differ bounds how many payloads may be returned", "after the first error nothing further is asserted (the connection is torn down)", "timing of the CBC camouflage read is not asserted, only that no data is returned"},
+	}
 }
